@@ -60,7 +60,42 @@ func observe(seg *segmenter.Segmenter, text []rune, order int) (o observation, p
 		default:
 			gi, wi, li = seg.GraphemeIterator(), seg.WordIterator(), seg.LineIterator()
 		}
+		// one case in four: a second iterator of each kind lives at the same time and is
+		// stepped ahead of the first one (peeking); both must yield the same segments
+		shadow := order%4 == 3
+		var li2 *segmenter.LineIterator
+		var gi2 *segmenter.GraphemeIterator
+		var wi2 *segmenter.WordIterator
+		var l2, g2, w2 []segObs
+		if shadow {
+			li2, gi2, wi2 = seg.LineIterator(), seg.GraphemeIterator(), seg.WordIterator()
+		}
+		peek := func(k int) {
+			if !shadow {
+				return
+			}
+			for j := 0; j < 2; j++ {
+				switch k {
+				case 0:
+					if len(l2) <= limit && li2.Next() {
+						l := li2.Line()
+						l2 = append(l2, segObs{l.Offset, len(l.Text), l.IsMandatoryBreak})
+					}
+				case 1:
+					if len(g2) <= limit && gi2.Next() {
+						g := gi2.Grapheme()
+						g2 = append(g2, segObs{g.Offset, len(g.Text), false})
+					}
+				default:
+					if len(w2) <= limit && wi2.Next() {
+						w := wi2.Word()
+						w2 = append(w2, segObs{w.Offset, len(w.Text), false})
+					}
+				}
+			}
+		}
 		stepL := func() bool {
+			peek(0)
 			if !li.Next() {
 				return false
 			}
@@ -72,6 +107,7 @@ func observe(seg *segmenter.Segmenter, text []rune, order int) (o observation, p
 			return len(o.Lines) <= limit
 		}
 		stepG := func() bool {
+			peek(1)
 			if !gi.Next() {
 				return false
 			}
@@ -83,6 +119,7 @@ func observe(seg *segmenter.Segmenter, text []rune, order int) (o observation, p
 			return len(o.Graphemes) <= limit
 		}
 		stepW := func() bool {
+			peek(2)
 			if !wi.Next() {
 				return false
 			}
@@ -113,6 +150,22 @@ func observe(seg *segmenter.Segmenter, text []rune, order int) (o observation, p
 				if c {
 					c = stepG()
 				}
+			}
+		}
+		if shadow {
+			for k := 0; k < 3; k++ {
+				for j := 0; j <= limit; j++ {
+					peek(k)
+				}
+			}
+			if o.LineStruct == "" && !sameSegs(l2, o.Lines) {
+				o.LineStruct = "a second LineIterator alive at the same time yields other segments than the first"
+			}
+			if o.GraphemeStruct == "" && !sameSegs(g2, o.Graphemes) {
+				o.GraphemeStruct = "a second GraphemeIterator alive at the same time yields other segments than the first"
+			}
+			if o.WordStruct == "" && !sameSegs(w2, o.Words) {
+				o.WordStruct = "a second WordIterator alive at the same time yields other words than the first"
 			}
 		}
 	})
